@@ -654,7 +654,10 @@ def run(rep, tier):
         narrowing.check(get_facts(facts.config, norm=True), rep, 'E3.lossless-narrowing', ('itoa.h',), min_sites=1)
         # 'valid JSON': the string writer may only emit the escapes RFC 8259 defines - the escape tables (shared with C09 / C05)
         from . import c09, c05
-        c09.clause_a(facts, rep)
+        try:
+            c09.clause_a(facts, rep)
+        except AnalysisBroken as ex:
+            rep.broken.append(str(ex))
         c05.clause_a(facts, rep)
     # 'serialization succeeds for every document': the string writer stays inside the reservation the serializer made for it
     # and inside the page of the source string (reserve formula, tail guard, bounce copy: shared with C09), also when the
@@ -663,9 +666,14 @@ def run(rep, tier):
     for cfg9, san in ((('K1', False), ('K8', False)) if tier == 'quick' else (('K1', False), ('K2', True), ('K3', False), ('K4', False), ('K8', False))):
         f9 = get_facts(cfg9)
         rep.unit(f9)
-        m9 = _c09.clause_a(f9, rep)
-        _c09.clause_bc(f9, rep, m9)
-        _c09.clause_de(f9, rep, san)
+        m9 = None
+        for cl_ in (lambda: _c09.clause_a(f9, rep), lambda: _c09.clause_bc(f9, rep, m9), lambda: _c09.clause_de(f9, rep, san)):
+            try:
+                r9_ = cl_()
+                if m9 is None and r9_ is not None:
+                    m9 = r9_
+            except AnalysisBroken as ex:
+                rep.broken.append(str(ex))
     # the digit-table / digit-character range rules of the double formatter are decided together with the evaluation of
     # the formatting stage on the current source (E5.format): a range proof that cannot be rebuilt for a new spelling
     # of the branches is a note, not a verdict
@@ -674,6 +682,17 @@ def run(rep, tier):
     # the reservation budget of SerializeImpl (every unchecked write covered by the Grow in force) is also decided by the
     # exploration, whose write-buffer model reserves exactly what is asked for (sv/ser_model.py)
     rep.corroborate('E4.budget', 'E6.serializer')
+    # the string writer: Quote evaluated byte by byte (shared with C09); its shape rules are decided together with it
+    from .. import quoteeval
+    for cfgq in ('K1', 'K8'):
+        try:
+            quoteeval.clause(get_facts(cfgq), rep, tier)
+        except AnalysisBroken as ex:
+            rep.broken.append(str(ex))
+    for r_ in ('E3.bounce-copy', 'E3.page-guard', 'E3.tail-range', 'E5.tail-mask', 'E5.vector-loop', 'E2.escape-peek', 'E5.escape-copy', 'E5.length-bound'):
+        rep.corroborate(r_, 'E5.quote-eval')
+    for pre_ in ('C09.d:', 'C09.f:', 'C09.c: vector width', 'C09.c: DoEscape copy width', 'C09.a: the continue / return decision', 'C09.a: the decision of DoEscape'):
+        rep.corroborate_floor(pre_, 'E5.quote-eval')
     rep.corroborate('E9.kind-dispatch', 'E6.serializer')
     rep.corroborate_floor('C08: number sub-type dispatch', 'E6.serializer')
     rep.corroborate('E1.inf-err', 'E6.serializer')      # the exploration includes the non-finite doubles: nothing may be pushed for them
